@@ -210,6 +210,12 @@ func c14Input(family string, n int, ctxs map[string]c14Context) (expr string, al
 		}
 		l[n-1] = "FOO AND"
 		return "MIT AND ISC", l, true
+	case "invalid:complete-then-plus", "invalid:complete-then-colon", "invalid:complete-then-with", "invalid:complete-then-exception", "invalid:complete-then-group-starting-with-operator", "invalid:complete-then-lone-operator-in-parens":
+		// a complete (parenthesised n deep) expression followed by tokens that cannot continue it: the
+		// diagnosis of the leftover must terminate
+		tail := map[string]string{"invalid:complete-then-plus": "+", "invalid:complete-then-colon": ":ISC", "invalid:complete-then-with": " WITH Bison-exception-2.2",
+			"invalid:complete-then-exception": " Bison-exception-2.2", "invalid:complete-then-group-starting-with-operator": " (AND ISC)", "invalid:complete-then-lone-operator-in-parens": " ((OR))"}[family]
+		return strings.Repeat("(", n) + "MIT OR ISC" + strings.Repeat(")", n) + tail, nil, true
 	case "repeated-term-or":
 		l := make([]string, n)
 		for i := range l {
@@ -224,7 +230,8 @@ var c14Scalar = []string{"paren-depth", "spaces", "long-unknown-id", "long-licen
 	"allowed-equal", "allowed-distinct", "allowed-family-overlap", "n-terms-n-entries", "repeated-term-or",
 	// error paths: the input is invalid, the cost must still be polynomial
 	"invalid:paren-depth-missing-operator", "invalid:paren-depth-dangling-and", "invalid:paren-depth-leading-or", "invalid:paren-depth-unknown-id",
-	"invalid:unclosed", "invalid:overclosed", "invalid:chain-then-missing-operator", "invalid:groups-then-dangling", "invalid:with-without-exception", "invalid:allowed-invalid-last"}
+	"invalid:unclosed", "invalid:overclosed", "invalid:chain-then-missing-operator", "invalid:groups-then-dangling", "invalid:with-without-exception", "invalid:allowed-invalid-last",
+	"invalid:complete-then-plus", "invalid:complete-then-colon", "invalid:complete-then-with", "invalid:complete-then-exception", "invalid:complete-then-group-starting-with-operator", "invalid:complete-then-lone-operator-in-parens"}
 
 var c14Fns = []string{"Satisfies/none-allowed", "Satisfies/all-allowed", "ExtractLicenses", "ValidateLicenses"}
 
@@ -346,7 +353,7 @@ func init() {
 		ID:       "C14",
 		Title:    "cost is polynomial in input size",
 		Explorer: "E1 exhaustive enumeration of linear recursion families (every context <= k leaves with a hole) unrolled under a length bound, deterministic allocation monitor on the real code",
-		Rule: "family = a recursion context (tree with <= k leaves, any AND/OR labelling, one leaf marked as hole; e1 = a term, e(n+1) = C[e(n)] with fresh leaves round-robin from 8 licence ids + 2 references; and every context once more with leaves from 8 early versions of range-table families against allowed lists of the same families that reach none / all of them; and once more with leaves that all carry a WITH exception) or one of 22 scalar families (parenthesis depth, spaces, long ids, rewrite chains, long / overlapping allowed lists, n terms vs n entries, and 10 families of INVALID input that exercise the error paths); each family is unrolled n = 1,2,3,... (scalar: doubling) while the total argument length stays <= B bytes (B = 2048 quick, 4096 thorough); " +
+		Rule: "family = a recursion context (tree with <= k leaves, any AND/OR labelling, one leaf marked as hole; e1 = a term, e(n+1) = C[e(n)] with fresh leaves round-robin from 8 licence ids + 2 references; and every context once more with leaves from 8 early versions of range-table families against allowed lists of the same families that reach none / all of them; and once more with leaves that all carry a WITH exception) or one of 28 scalar families (parenthesis depth, spaces, long ids, rewrite chains, long / overlapping allowed lists, n terms vs n entries, and 16 families of INVALID input that exercise the error paths, 6 of them a complete expression followed by tokens that cannot continue it); each family is unrolled n = 1,2,3,... (scalar: doubling) while the total argument length stays <= B bytes (B = 2048 quick, 4096 thorough); " +
 			"state = (family, n), 4 transitions (Satisfies with nothing / everything allowed, ExtractLicenses, ValidateLicenses); oracles: completes, TotalAlloc delta < 1 GiB, < 10 s, and alloc(2n) <= 20*alloc(n) (local degree <= 4); non-trivial = states with n >= 4 of families whose context contains both operators",
 		Assumptions: []string{
 			"TotalAlloc/Mallocs deltas of a single-goroutine call are deterministic; the growth law is evaluated on every doubling inside the bound, its continuation beyond the bound is an extrapolation",
